@@ -88,6 +88,7 @@ type opOut struct {
 	OK    bool
 	Owner int  // probe: owning session observed (0 = none)
 	Unk   bool // probe: outcome not informative
+	Late  bool // reg: refused at the second step ("already in use": its listener existed for a moment)
 }
 
 var nameModel = porcupine.Model{
@@ -214,7 +215,7 @@ func historyCase(c *h.Case) {
 						mu.Unlock()
 						return
 					}
-					record(o.Name, s, o, opOut{OK: resp.Error == ""}, call, ret)
+					record(o.Name, s, o, opOut{OK: resp.Error == "", Late: strings.Contains(resp.Error, "already in use")}, call, ret)
 					run.Count("registrations", 1)
 					if resp.Error != "" {
 						run.Count("registrations_refused", 1)
@@ -325,6 +326,26 @@ func historyCase(c *h.Case) {
 					out.Unk = true
 					hist[i].Output = out
 					run.Count("probes_concurrent_with_close", 1)
+					break
+				}
+			}
+		}
+		// Registration is two steps as well (the visitor listener is created, then the name is entered). A
+		// registration that finds the listener slot free while another session's close has not yet removed the
+		// name is refused at the second step ("already in use") and undone — but for that moment its listener exists and may serve
+		// a visitor. A probe answered by a session whose registration of the name was in progress at that time
+		// and was then REFUSED has seen this transient; it says nothing about the register's value.
+		for i := range hist {
+			in, out := hist[i].Input.(opIn), hist[i].Output.(opOut)
+			if in.Kind != "probe" || out.Unk || out.Owner <= 0 {
+				continue
+			}
+			for j := range hist {
+				jin, jout := hist[j].Input.(opIn), hist[j].Output.(opOut)
+				if jin.Kind == "reg" && jin.Sess == out.Owner && !jout.OK && jout.Late && hist[j].Call <= hist[i].Return && hist[i].Call <= hist[j].Return {
+					out.Unk = true
+					hist[i].Output = out
+					run.Count("probes_answered_by_refused_registration_in_progress", 1)
 					break
 				}
 			}
